@@ -1,6 +1,6 @@
 (* C14 entry.
    case   = (kind opts sizes input queries cfg [autosql])   kind 0/1 as Model/EntryBBI.v; kind 10/11 = bigBed
-            (Model/EntryBed.v input), judged by the oracle only; cfg = (threads inmemory nofault)
+            single/two pass (Model/EntryBed.v input; autosql = () | ((bytes))); cfg = (threads inmemory nofault)
    model output = (status exact comparable trace runs prefixes faults refused-bytes)
      status      (0) | (1 code) | (2) | (3)
      exact       1 when the real trace is determined by the input (one chromosome, uncompressed,
@@ -17,7 +17,7 @@
    destination opens and answers differently from the finished file; no injected failure after
    which `write` returned Ok or did not return. *)
 From BT Require Import Base.Util Base.Sexp Base.LE Base.Float Model.RTree Model.BBIFile Model.BigWigWrite
-  Model.EntryBBI Model.SinkTrace.
+  Model.EntryBBI Model.SinkTrace Model.BigBedWrite Model.EntryBed Model.SinkTraceBed.
 Local Open Scope N_scope.
 
 Definition sOp (op : sop) : sexp :=
@@ -96,9 +96,38 @@ Definition c14_model_bw (c : sexp) : sexp :=
      L faults;
      sBytes (match pr with Ok _ => [] | _ => replay ops end)].
 
-(* kinds 10 and 11 are bigBed runs: no trace model, the oracle alone judges them *)
+(* kinds 10 and 11: BigBedWrite::write / write_multipass (Model/SinkTraceBed.v); the autoSql is the
+   seventh field of the case.  Same output, and a ninth field: the number of bytes from offset 0 that
+   a refused run has written at least (write_pre is complete before any input is looked at; a
+   refused autoSql leaves the blank headers; refused options leave nothing) *)
+Definition c14_model_bb (c : sexp) : sexp :=
+  let kind := getN (nthS 0 c) - 10 in
+  let o := get_opts (nthS 1 c) in
+  let sizes := get_sizes (nthS 2 c) in
+  let input := bed_input c in
+  let autosql := getOpt getBytes (nthS 6 c) in
+  let nofault := getB (nthS 2 (nthS 5 c)) in
+  let pr := bb_parts ieee kind o sizes autosql input in
+  let '(status, ops) := bb_sink_run None ck_whole ieee kind o sizes autosql input in
+  let exact := match pr with Ok (_, p) => parts_exact p && negb (o_compress o) | _ => false end in
+  let h := match pr with Ok (sql, p) => Some (bb_header_index ck_whole kind sql p) | _ => None end in
+  let faults :=
+    if nofault then [] else
+    flat_map (fun kd => map (fun k =>
+                               let '(r, _) := bb_sink_run (Some (kd, k)) ck_whole ieee kind o sizes autosql input in
+                               L [sN kd; sNat k; A (match r with Ok _ => 0 | _ => 1 end)%Z])
+                            (seq 0 (count_kind kd ops))) [0; 1; 2] in
+  let written := match pr with Ok _ => [] | _ => replay ops end in
+  L [sStatus status; sB exact; sB (negb (o_compress o));
+     sList sOp ops;
+     sList (fun pb => L [sN (fst pb); sBytes (snd pb)]) (coalesce [] ops);
+     L (prefixes h ops);
+     L faults;
+     sBytes written;
+     sN (match bb_schema autosql with Ok (sql, _) => N.min (Nlen (bb_pre sql)) (Nlen written) | _ => Nlen written end)].
+
 Definition c14_model (c : sexp) : sexp :=
-  if 10 <=? getN (nthS 0 c) then L [] else c14_model_bw c.
+  if 10 <=? getN (nthS 0 c) then c14_model_bb c else c14_model_bw c.
 
 (* ---- the property on the implementation's output:
    out = (status trace runs prefixes torn faults) *)
